@@ -21,7 +21,8 @@ ASSUMPTIONS = [
     "diff correspondence compares the multiset of change kinds (never the description strings) on the whole type map; "
     "the places named by the changes are covered by the theorem C19_diff_sound (witness per kind) on the model",
     "extension documents come from the generator domain of the property (add fields/interfaces/members/values/"
-    "input fields/directives/operation types/new types); a new type named Query/Mutation/Subscription is outside "
+    "input fields/directives/operation types/new types, directive-only extension blocks of every kind incl. "
+    "@specifiedBy on scalar extensions and @oneOf on input extensions); a new type named Query/Mutation/Subscription is outside "
     "that domain (build_schema adopts it as a root by convention, extend_schema does not)",
 ]
 
@@ -389,6 +390,36 @@ def gen_extension(spec, rng):
         else:
             defs.append(G.schema_block_sdl(spec, extend=True, ops=ops))
         labels.append("operation_types")
+    # directive-only extension blocks of every kind and of the schema itself (1-3 blocks per scalar, any order after
+    # the shuffle); a scalar without a URL may gain @specifiedBy in any one of its blocks, a scalar with a URL
+    # must keep it through blocks that do not mention @specifiedBy; `extend input X @oneOf` has no effect
+    kw = {"scalar": "scalar", "object": "type", "interface": "interface", "union": "union", "enum": "enum",
+          "input": "input"}
+    tag = lambda: rng.choice(["@xtag", "@xtag(n: 1)", "@xtag @xtag(n: 2)"])
+    tagged = False
+    for t in spec.types:
+        if rng.random() >= (0.7 if t.kind == "scalar" else 0.2):
+            continue
+        blocks = [f"extend {kw[t.kind]} {t.name} {tag()}" for _ in range(rng.randint(1, 3 if t.kind == "scalar" else 2))]
+        labels.append("directive_only_" + t.kind)
+        if t.kind == "scalar" and t.specified_by is None and rng.random() < 0.6:
+            url = G.quote(rng.choice(["https://ext.example/spec", "urn:ext", "", G.adversarial_text(rng)]))
+            blocks[rng.randrange(len(blocks))] = f"extend scalar {t.name} " + rng.choice(
+                [f"@specifiedBy(url: {url})", f"@xtag @specifiedBy(url: {url})", f"@specifiedBy(url: {url}) @xtag"])
+            labels.append("scalar_specified_by")
+        if t.kind == "scalar" and t.specified_by is not None:
+            labels.append("scalar_with_url_extended")
+        if t.kind == "input" and not t.one_of and rng.random() < 0.4:
+            blocks.append(f"extend input {t.name} @oneOf")
+            labels.append("oneOf_on_extension")
+        tagged = tagged or any("@xtag" in b for b in blocks)
+        defs += blocks
+    if rng.random() < 0.2:
+        defs.append("extend schema @xtag")
+        labels.append("directive_only_schema")
+        tagged = True
+    if tagged:
+        defs.append("directive @xtag(n: Int) repeatable on SCALAR | OBJECT | INTERFACE | UNION | ENUM | INPUT_OBJECT | SCHEMA")
     rng.shuffle(defs)
     return defs, labels
 
